@@ -41,7 +41,7 @@ pub mod probe;
 
 pub fn registry() -> Vec<(&'static str, Body)> {
     let mut v = Vec::new();
-    v.extend_from_slice(hand::REG);
+    hand::extend(&mut v);
     gen::extend(&mut v);
     v
 }
